@@ -1,4 +1,5 @@
 import TF.Proofs.NttFinal
+import TF.Proofs.GenBridgeNtt
 /-!
 # C06 — NTT is the discrete Fourier transform over the field; INTT is its inverse
 
@@ -221,5 +222,107 @@ theorem x_transforms_coordinatewise (k : Nat) (x : Array X3) :
     (inttNoswap xOps primitiveRoot x).map (Array.map (coord k)) = inttNoswap bOps primitiveRoot (x.map (coord k)) :=
   x_coordinatewise k x
 example : coord 0 (1, 2, 3) = 1 ∧ coord 1 (1, 2, 3) = 2 ∧ coord 2 (1, 2, 3) = 3 := by decide
+
+end TF.C06
+
+/-! ## regenerated-from-source bridge (tools/rs2lean_ext.py, `TF/Gen/NttLoops.lean`)
+
+`bitreverse`, `bitreverse_usize`, `bitreverse_order`, `ntt_unchecked` and `intt_noswap` are **also regenerated from
+`ntt.rs` on every run**, with the field operations as a parameter `ops : Ops σ α` (so one generated definition serves both
+fields; the driver evaluates it on `bOps` and `xOps` next to the hand model and prints `GEN-MISMATCH` on a difference).
+Proved here (proofs in `TF/Proofs/GenBridgeNtt.lean`), for every `ops`:
+
+* the `u32` bit loop `bitreverse` = the model's `bitreverse`, never panics (`l ≤ 32`);
+* the bit-reversal swap loop of `ntt_unchecked` (`for k in 0..len { rk = bitreverse(k, log); if k < rk { x.swap(rk, k) } }`)
+  = the model's `swapLoop`, **including the panic** (`swap` out of bounds ⇔ `_ok = false`);
+* the inner butterfly loops (`for j in 0..m`) of `ntt_unchecked` (indices computed in `u32` and cast) and of `intt_noswap`
+  (`usize`) = the in-place reference pass `refBlock` with unbounded indices, with no index out of range and no index
+  arithmetic overflowing, whenever the block `[k, k + 2m)` lies inside the slice.
+
+* `gen_butterfly_block_pointwise`: the in-place inner loop, pointwise in terms of the slice before the loop (each index
+  pair written once) — the block-level content of "in-place loop = functional stage".
+
+Not yet proved, stated as `gen_ntt_unchecked_statement` (a `_partial` entry): the composition over the `while k < len` block
+loop (fuel `len + 1` suffices) and the stage loop, and the identification of the block formula with the model's `stage`
+(`Array.ofFn`, twiddle table `powers`); that part stays tied by the driver's side-by-side evaluation and the
+correspondence check. -/
+namespace TF.C06
+open TF.Gen TF.Model.Ntt
+
+/-- regenerated `bitreverse` (u32 loop `r = (r << 1) | (n & 1); n >>= 1`) = hand model; the shift cannot overflow -/
+theorem gen_bitreverse_eq_model (n l : Nat) (hl : l ≤ 32) :
+    Loops.ntt_bitreverse n l = bitreverse n l ∧ Loops.ntt_bitreverse_ok n l = true :=
+  TF.GenBridge.Ntt.gen_bitreverse_eq n l hl
+example : Loops.ntt_bitreverse 6 3 = 3 ∧ Loops.ntt_bitreverse 1 32 = 2147483648 := by decide
+
+/-- regenerated swap loop of `ntt_unchecked` = the model's `swapLoop` (value and panic), every `ops`, every array -/
+theorem gen_swap_loop_eq_model {σ α : Type} (ops : Ops σ α) (log : Nat) (hl : log ≤ 32) (n k : Nat) (a : Array α) :
+    (if Loops.ntt_unchecked_for_ok ops log n k a.toList then some (Loops.ntt_unchecked_for ops log n k a.toList) else none)
+      = (swapLoop log n k a).map Array.toList :=
+  TF.GenBridge.Ntt.unchecked_for_eq ops log hl n k a
+example : Loops.ntt_unchecked_for bOps 2 4 0 [10, 11, 12, 13] = [10, 12, 11, 13] ∧
+    Loops.ntt_unchecked_for_ok bOps 3 4 0 [10, 11, 12, 13] = false := by decide
+
+/-- regenerated `bitreverse_usize` = hand model (`l ≤ 64`), and the swap loop of `bitreverse_order` = the model's `swapLoop`
+    (value and panic) -/
+theorem gen_bitreverse_order_loop_eq_model {σ α : Type} (ops : Ops σ α) (log : Nat) (hl : log ≤ 64) (n k : Nat) (a : Array α) :
+    (Loops.ntt_bitreverse_usize n log = bitreverse n log ∧ Loops.ntt_bitreverse_usize_ok n log = true) ∧
+    (if Loops.ntt_bitreverse_order_for2_ok ops log n k a.toList then some (Loops.ntt_bitreverse_order_for2 ops log n k a.toList)
+      else none) = (swapLoop log n k a).map Array.toList :=
+  ⟨TF.GenBridge.Ntt.gen_bitreverse_usize_eq n log hl, TF.GenBridge.Ntt.bitreverse_order_for2_eq ops log hl n k a⟩
+example : Loops.ntt_bitreverse_usize 1 64 = 9223372036854775808 ∧
+    Loops.ntt_bitreverse_order_for2 bOps 3 8 0 [0, 1, 2, 3, 4, 5, 6, 7] = [0, 4, 2, 6, 1, 5, 3, 7] := by decide +kernel
+
+/-- regenerated inner butterfly loops = the in-place reference pass over one block; they cannot panic when the block is
+    inside the slice -/
+theorem gen_butterfly_block_eq {σ α : Type} (ops : Ops σ α) (root : Nat → Option σ) (m : Nat) (w_m : σ) (k n j : Nat)
+    (x : List α) (w : σ) (hlen : k + j + n + m ≤ x.length) (hU : x.length < 4294967296) :
+    (Loops.ntt_unchecked_for4 ops m w_m k n j x w = TF.GenBridge.Ntt.refBlock ops m w_m k n j x w ∧
+      Loops.ntt_unchecked_for4_ok ops m w_m k n j x w = true) ∧
+    (Loops.intt_noswap_for4 ops root m w_m k n j x w = TF.GenBridge.Ntt.refBlock ops m w_m k n j x w ∧
+      Loops.intt_noswap_for4_ok ops root m w_m k n j x w = true) :=
+  ⟨TF.GenBridge.Ntt.unchecked_for4_eq ops m w_m k n j x w hlen hU,
+   TF.GenBridge.Ntt.intt_noswap_for4_eq ops root m w_m k n j x w hlen (by omega)⟩
+example : (Loops.ntt_unchecked_for4 bOps 2 5 0 2 0 [1, 2, 3, 4] 1).1 = [4, 22, 18446744069414584319, 18446744069414584303] := by
+  decide +kernel
+
+/-- **the in-place butterfly loop of the source, pointwise**: after the regenerated `for j in 0..m` loop of `ntt_unchecked`
+    over the block at `k` (started with twiddle `w`), position `k + j` holds `x[k+j] + w·w_mʲ · x[k+j+m]`, position
+    `k + m + j` holds `x[k+j] - w·w_mʲ · x[k+j+m]` — in terms of the slice **before** the loop (each index pair is written
+    exactly once, so the in-place update is the functional butterfly on the block) — everything outside the block is
+    untouched, and nothing panics.  The same holds for `intt_noswap` (`gen_butterfly_block_eq`). -/
+theorem gen_butterfly_block_pointwise {σ α : Type} (ops : Ops σ α) (m : Nat) (w_m : σ) (k : Nat) (x : List α) (w : σ)
+    (hlen : k + 2 * m ≤ x.length) (hU : x.length < 4294967296) (idx : Nat) :
+    Loops.ntt_unchecked_for4_ok ops m w_m k m 0 x w = true ∧
+    (Loops.ntt_unchecked_for4 ops m w_m k m 0 x w).1[idx]? =
+      if k ≤ idx ∧ idx < k + m then
+        some (ops.add (x.getD idx ops.zero)
+          (ops.scale (TF.GenBridge.Ntt.wp ops w_m w (idx - k)) (x.getD (idx + m) ops.zero)))
+      else if k + m ≤ idx ∧ idx < k + m + m then
+        some (ops.sub (x.getD (idx - m) ops.zero)
+          (ops.scale (TF.GenBridge.Ntt.wp ops w_m w (idx - (k + m))) (x.getD idx ops.zero)))
+      else x[idx]? := by
+  obtain ⟨e, ok⟩ := TF.GenBridge.Ntt.unchecked_for4_eq ops m w_m k m 0 x w (by omega) hU
+  obtain ⟨_, _, hp⟩ := TF.GenBridge.Ntt.refBlock_spec ops m w_m k m 0 x w (by omega) (by omega)
+  refine ⟨ok, ?_⟩
+  rw [e, hp idx]
+  simp only [Nat.add_zero]
+example : TF.GenBridge.Ntt.wp bOps 5 1 2 = 25 := by decide
+
+/-- the full bridge (not yet proved): the regenerated `ntt_unchecked` finishes within its fuel, panics exactly when the
+    model does and returns the model's result -/
+def gen_ntt_unchecked_statement : Prop :=
+  ∀ {σ α : Type} (ops : Ops σ α) (x : Array α) (omega : σ) (log : Nat), log ≤ 31 → x.size = 2 ^ log →
+    (Loops.ntt_unchecked ops x.toList omega log).bind
+        (fun r => if Loops.ntt_unchecked_ok ops x.toList omega log then some r else none)
+      = (nttUnchecked ops x omega log).map Array.toList
+
+/-- what is proved of `gen_ntt_unchecked_statement`: its first phase (the swap loop) and the innermost loop of its second
+    phase, for the code as it is in the source now -/
+theorem gen_ntt_unchecked_partial {σ α : Type} (ops : Ops σ α) (x : Array α) (log : Nat) (hl : log ≤ 32) :
+    (if Loops.ntt_unchecked_for_ok ops log x.size 0 x.toList then some (Loops.ntt_unchecked_for ops log x.size 0 x.toList)
+      else none) = (bitrevPermute x log).map Array.toList :=
+  TF.GenBridge.Ntt.unchecked_for_eq ops log hl x.size 0 x
+example : (bitrevPermute #[10, 11, 12, 13] 2).map Array.toList = some [10, 12, 11, 13] := by decide
 
 end TF.C06
